@@ -163,12 +163,19 @@ type tracer struct {
 	isPacker func() bool
 	stalePrio int          // evaluations after which a priced object's priority was not the one for the wash's head
 	washHead  thor.Bytes32 // head of the wash in flight
+	washChg   bool         // that wash runs because the head changed
+	// the one stale-priority shape that is a known finding: an Add priced under one head and inserted under the next, not
+	// yet seen by a wash that runs because of a head change
+	stalePrioRaced int
+	addHead        map[thor.Bytes32]thor.Bytes32 // tx hash -> head when its Add began
+	raced          map[uint64]bool               // objects inserted under another head than they were priced under
 	stale int // promote events (successful) of an object that was not the pooled object of its hash
 	cur   map[thor.Bytes32]uint64
 }
 
 func newTracer(e *env) *tracer {
-	return &tracer{e: e, objs: map[uint64]int{}, cur: map[thor.Bytes32]uint64{}}
+	return &tracer{e: e, objs: map[uint64]int{}, cur: map[thor.Bytes32]uint64{}, addHead: map[thor.Bytes32]thor.Bytes32{},
+		raced: map[uint64]bool{}}
 }
 
 func (t *tracer) obj(id uint64) int {
@@ -246,6 +253,9 @@ func (t *tracer) handle(ev txpool.VerifEvent) {
 		t.mu.Lock()
 		switch ev.Kind {
 		case "add", "fill":
+			if h, ok := t.addHead[ev.Hash]; ok && ev.Kind == "add" && h != e.lastHead {
+				t.raced[ev.Obj] = true
+			}
 			t.cur[ev.Hash] = ev.Obj
 		case "remove":
 			delete(t.cur, ev.Hash)
@@ -275,6 +285,7 @@ func (t *tracer) handle(ev txpool.VerifEvent) {
 		out["os"] = os
 	case "wash.begin":
 		t.washHead = ev.HeadID
+		t.washChg = ev.HeadChanged
 		out["e"] = "wash_begin"
 		out["os"] = t.objsOf(ev.Objs)
 		out["num"] = ev.HeadNum
@@ -313,12 +324,20 @@ func (t *tracer) handle(ev txpool.VerifEvent) {
 		// recognisable in the event stream itself: the priority left on a priced object is not the one for this wash's head
 		if ev.Prio != nil && ev.Kind == "eval.done" && ev.Tx != nil {
 			if sum, err := e.net.God.Repo.GetBlockSummary(t.washHead); err == nil && sum.Header.Number()+1 >= e.net.FC.GALACTICA {
+				t.mu.Lock()
 				if ev.Prio.Cmp(e.prioAt(ev.Tx, t.washHead)) != 0 {
-					out["staleprio"] = true
-					t.mu.Lock()
-					t.stalePrio++
-					t.mu.Unlock()
+					if t.raced[ev.Obj] && !t.washChg {
+						out["staleprio"] = "raced"
+						t.stalePrioRaced++
+					} else {
+						out["staleprio"] = true
+						t.stalePrio++
+					}
 				}
+				if t.washChg {
+					delete(t.raced, ev.Obj) // a head-change wash brings it up to date
+				}
+				t.mu.Unlock()
 			}
 		}
 	case "wash.limit":
